@@ -49,7 +49,10 @@ PROPS = {
     },
     "C11": {
         "model_mm_filter": "result-kinds",   # hash / distance VALUES are C01's / C02's business (DESIGN §14)
-        "spec_mm_filter_ops": {"hstreamerr": "never"},   # a hard error after > MAX bytes is C12's clause
+        # a hard error after > MAX bytes is C12's clause; `state` lines are here for panics / overflow checks only
+        # (values and option semantics are C01's / C10's business)
+        "spec_mm_filter_ops": {"hstreamerr": "never", "state": "never"},
+        "model_mm_ops": ["core", "hstream"],
         "modules": [T + "C11", T + "TablesLimits"],
         "theorems": [(T + "C11.processed_len_spec", T + "C11"),
                      (T + "C11.counters_bounded", T + "C11"),
@@ -576,6 +579,7 @@ PROPS = {
         # "differs from the reference" alone (MM spec) is another property's business and only breaks the
         # transfer of the cfg-irrelevance theorems (=> search, no-failing-input-found)
         "spec_is_property": False,
+        "ignore_spec_mm": True,
         "cross_config_streams": ['gen', 'cmp', 'fmt', 'store', 'frombin', 'len', 'cmpstr', 'stream', 'parse', 'parse-sweep', 'tables'],
         "streams": {
             "quick": [('default', 'cmpstr', 300), ('default', 'stream', 60), ('optdef', 'cmpstr', 300), ('optdef', 'stream', 60), ('embedded', 'cmpstr', 300), ('embedded', 'stream', 60), ('quarter', 'cmpstr', 300), ('quarter', 'stream', 60), ('mintab', 'cmpstr', 300), ('mintab', 'stream', 60), ('hexsimd-only', 'cmpstr', 300), ('hexsimd-only', 'stream', 60), ('static-avx2', 'cmpstr', 300), ('static-avx2', 'stream', 60), ('static-sse2', 'cmpstr', 300), ('static-sse2', 'stream', 60), ('unsafe', 'cmpstr', 300), ('unsafe', 'stream', 60), ('default', 'parse-sweep', 24), ('naive', 'parse-sweep', 24), ('optdef', 'parse-sweep', 24), ('embedded', 'parse-sweep', 24), ('quarter', 'parse-sweep', 24), ('mintab', 'parse-sweep', 24), ('hexsimd-only', 'parse-sweep', 24), ('unsafe', 'parse-sweep', 24), ('default', 'gen', 250), ('default', 'cmp', 400), ('default', 'fmt', 60), ('default', 'store', 1), ('default', 'frombin', 100), ('default', 'len', 300), ('default', 'tables', 300), ('default', 'agg', 200), ('default', 'body', 200), ('default', 'parse', 400), ('naive', 'gen', 250), ('naive', 'cmp', 400), ('naive', 'fmt', 60), ('naive', 'store', 1), ('naive', 'frombin', 100), ('naive', 'len', 300), ('naive', 'tables', 300), ('naive', 'agg', 200), ('naive', 'body', 200), ('optdef', 'gen', 250), ('optdef', 'cmp', 400), ('optdef', 'fmt', 60), ('optdef', 'store', 1), ('optdef', 'frombin', 100), ('optdef', 'len', 300), ('optdef', 'tables', 300), ('optdef', 'agg', 200), ('optdef', 'body', 200), ('optdef', 'parse', 400), ('embedded', 'gen', 250), ('embedded', 'cmp', 400), ('embedded', 'fmt', 60), ('embedded', 'store', 1), ('embedded', 'frombin', 100), ('embedded', 'len', 300), ('embedded', 'tables', 300), ('embedded', 'agg', 200), ('embedded', 'body', 200), ('embedded', 'parse', 400), ('quarter', 'gen', 250), ('quarter', 'cmp', 400), ('quarter', 'fmt', 60), ('quarter', 'store', 1), ('quarter', 'frombin', 100), ('quarter', 'len', 300), ('quarter', 'tables', 300), ('quarter', 'agg', 200), ('quarter', 'body', 200), ('quarter', 'parse', 400), ('mintab', 'gen', 250), ('mintab', 'cmp', 400), ('mintab', 'fmt', 60), ('mintab', 'store', 1), ('mintab', 'frombin', 100), ('mintab', 'len', 300), ('mintab', 'tables', 300), ('mintab', 'agg', 200), ('mintab', 'body', 200), ('mintab', 'parse', 400), ('static-avx2', 'gen', 250), ('static-avx2', 'cmp', 400), ('static-avx2', 'fmt', 60), ('static-avx2', 'store', 1), ('static-avx2', 'frombin', 100), ('static-avx2', 'len', 300), ('static-avx2', 'tables', 300), ('static-avx2', 'agg', 200), ('static-avx2', 'body', 200), ('static-avx2', 'parse', 400), ('static-sse41', 'gen', 250), ('static-sse41', 'cmp', 400), ('static-sse41', 'fmt', 60), ('static-sse41', 'store', 1), ('static-sse41', 'frombin', 100), ('static-sse41', 'len', 300), ('static-sse41', 'tables', 300), ('static-sse41', 'agg', 200), ('static-sse41', 'body', 200), ('static-sse41', 'parse', 400), ('static-sse2', 'gen', 250), ('static-sse2', 'cmp', 400), ('static-sse2', 'fmt', 60), ('static-sse2', 'store', 1), ('static-sse2', 'frombin', 100), ('static-sse2', 'len', 300), ('static-sse2', 'tables', 300), ('static-sse2', 'agg', 200), ('static-sse2', 'body', 200), ('static-sse2', 'parse', 400), ('hexsimd-only', 'gen', 250), ('hexsimd-only', 'cmp', 400), ('hexsimd-only', 'fmt', 60), ('hexsimd-only', 'store', 1), ('hexsimd-only', 'frombin', 100), ('hexsimd-only', 'len', 300), ('hexsimd-only', 'tables', 300), ('hexsimd-only', 'agg', 200), ('hexsimd-only', 'body', 200), ('hexsimd-only', 'parse', 400), ('unsafe', 'gen', 250), ('unsafe', 'cmp', 400), ('unsafe', 'fmt', 60), ('unsafe', 'store', 1), ('unsafe', 'frombin', 100), ('unsafe', 'len', 300), ('unsafe', 'tables', 300), ('unsafe', 'agg', 200), ('unsafe', 'body', 200), ('unsafe', 'parse', 400), ('default', 'race', 8), ('default', 'hist', 200), ('embedded', 'state', 300), ('default', 'state', 300)],
